@@ -184,6 +184,9 @@ func (e *env) newObject(typeName string, h *simrt.Handle) any {
 		return v.Interface()
 	}
 	v.Elem().FieldByName("Sim").Set(reflect.ValueOf(h))
+	if f := v.Elem().FieldByName("OrdH"); f.IsValid() && f.CanSet() {
+		f.Set(reflect.ValueOf(h)) // the order mix-in answers with the handle's order
+	}
 	for _, fr := range t.Frame {
 		for _, f := range e.frameLeaves(v.Interface(), t, fr) {
 			switch f.Kind() {
@@ -1157,6 +1160,7 @@ func (e *env) main(inClose, closeReturned *bool) {
 	}
 	if obs.Panic == "" && (!obs.RunErr || runnerFailed) && spec.Close {
 		ctx.Log("close-call", "", "")
+		ctx.TimeMayPass = true // closers may be slow: seconds of simulated time may pass while they are parked
 		*inClose = true
 		a.Close()
 		*closeReturned = true
